@@ -713,6 +713,48 @@ example : lazyFrameBytes [1, 2, 3, 4, 5, 6, 7] 1 2 1 8 3 "MONOCHROME2" 2 false =
   lazy_bytes_is_slice [1, 2, 3, 4, 5, 6, 7] 1 2 1 8 "MONOCHROME2" (by decide) 3 1 (by decide) (by decide) (by decide)
 
 
+
+/-- **Native pixel data read from the FILE**: with the header of the Pixel Data element in front of the value - 8 bytes under
+implicit VR, 12 under explicit VR (regenerated `nativeFirstFrameOffset`, T11f) - and anything in front of the element, the lazy
+reader's read at its remembered file position returns slice `i` of the value, for >= 8 bits allocated, both VR encodings, every
+photometric interpretation, frame count and frame.  (The file-level read is proved equal to the value-level `lazyRaw` whenever
+offset and length are not negative: `lazy_native_file_eq`.  Tie C: stream `native-file`, the reader against the file's own bytes.) -/
+theorem lazy_native_file_frame (pre value : Bytes) (implicit : Bool) (vr : Bytes) (hvr : 2 ≤ vr.length)
+    (rows cols samples bits : Nat) (pi : String) (hb : bits ≠ 1) (n i : Nat) (hi : i < n)
+    (hne : i * frameBytes rows cols samples bits pi < value.length) (hpos : 0 < frameBytes rows cols samples bits pi) :
+    lazyRawNativeFile (pre ++ (nativeHeader implicit vr value.length ++ value)) pre.length implicit rows cols samples bits n pi i
+      = .ok (sliceBytes value (frameBytes rows cols samples bits pi) i) := by
+  have h1 : stdFrameIndex ((i : Int) + 1) false n = .ok (i : Int) := by
+    rw [stdFrameIndex_ok_iff]; simp; omega
+  have h2 : lazyIndexGuard (i : Int) n = .ok (i : Int) := by
+    rw [lazyIndexGuard_ok_iff]; omega
+  have hb' : (((bits : Int)) == 1) = false := by
+    have : (bits : Int) ≠ 1 := by exact_mod_cast hb
+    simpa using this
+  have hbne : ¬ ((bits : Int) = 1) := by exact_mod_cast hb
+  have hbpf : lazyBytesPerFrame ((rows : Int) * cols * samples) bits pi rows cols
+      = .ok ((frameBytes rows cols samples bits pi : Nat) : Int) := by
+    unfold lazyBytesPerFrame frameBytes
+    simp only [hb', Bool.false_eq_true, ↓reduceIte, Bool.not_false, fdiv_pos _ 8 (by omega)]
+    by_cases hp : pi = "YBR_FULL_422"
+    · simp [hp]; congr 1; rw [Int.mul_comm]
+    · have : (pi == "YBR_FULL_422") = false := by simpa using hp
+      simp [hp, this]; congr 1; rw [Int.mul_comm]
+  have hs := lazy_bytes_is_slice value rows cols samples bits pi hb n i hi hne hpos
+  unfold lazyFrameBytes Skel.frameBytes Skel.index at hs
+  simp only [singleSkel, singleStdArgs, singleRawArgs, bind, Except.bind, h1] at hs
+  rw [← hs]
+  generalize hL : frameBytes rows cols samples bits pi = L at *
+  apply lazy_native_file_eq pre value implicit vr hvr rows cols samples bits n pi (i : Int) (i : Int) (L : Int)
+    ((i : Int) * (L : Int)) (L : Int) h2 hbpf
+  · simp only [hbne, ↓reduceIte, lazyOffsetByte]
+  · simp only [lazyReadLength, hb', Bool.false_eq_true, ↓reduceIte]
+  · positivity
+  · omega
+
+example : lazyRawNativeFile ([9, 9] ++ (nativeHeader false [0x4F, 0x42] 6 ++ [1, 2, 3, 4, 5, 6])) 2 false 1 2 1 8 3 "MONOCHROME2" 1
+    = .ok [3, 4] := by decide +kernel
+
 /-! ## Histories on one image object (cache empty / filled / stale after the PixelData value was replaced) -/
 
 /-- **After ANY history the next fetch answers from the CURRENT pixel data.**  `one` = the un-cached fetch, `all` = the
